@@ -95,6 +95,23 @@ Definition raw_interps (n : string) (sd : sdesc) (vs : list val) : list ty :=
     end
   else [].
 
+
+(* ----------------------------------------------------------------------------------- traversal helpers *)
+(* fields of a struct value zipped with the field descriptions (values beyond the description are kept) *)
+(* (f is bound outside the fix so that the guard checker can see through these helpers) *)
+Definition zipf (f : field -> val -> val) : list field -> list val -> list val :=
+  fix go (fds : list field) (vs : list val) {struct vs} : list val :=
+    match vs, fds with
+    | x :: vs', fd :: fds' => f fd x :: go fds' vs'
+    | _, _ => vs
+    end.
+Definition map_es (f : val -> val) : list (string * val) -> list (string * val) :=
+  fix go (es : list (string * val)) : list (string * val) :=
+    match es with
+    | [] => []
+    | (k, e) :: es' => (k, f e) :: go es'
+    end.
+
 (* ------------------------------------------------------------------------------------------ taint *)
 Fixpoint taint (T : table) (t : ty) (v : val) {struct v} : val :=
   match v with
@@ -105,24 +122,18 @@ Fixpoint taint (T : table) (t : ty) (v : val) {struct v} : val :=
       | None => v
       | Some sd =>
         let interps := raw_interps n sd vs in
-        VStruct ((fix go (fds : list field) (vs : list val) {struct vs} : list val :=
-                    match fds, vs with
-                    | fd :: fds', x :: vs' =>
-                      (if is_tls_key n fd then match x with VStr s => VSecret s | _ => x end
-                       else match f_ty fd, x with
-                            | TRaw, VJson j => VJson (fold_left (fun j t' => taint_json T t' j) interps j)
-                            | _, _ => taint T (f_ty fd) x
-                            end) :: go fds' vs'
-                    | _, _ => vs
-                    end) (s_fields sd) vs)
+        VStruct (zipf (fun fd x =>
+                         if is_tls_key n fd then match x with VStr s => VSecret s | _ => x end
+                         else match f_ty fd, x with
+                              | TRaw, VJson j => VJson (fold_left (fun j t' => taint_json T t' j) interps j)
+                              | _, _ => taint T (f_ty fd) x
+                              end) (s_fields sd) vs)
       end
     | _ => v
     end
   | VRef r es =>
     match t with
-    | TPtr t' | TSlice t' | TMap t' =>
-      VRef r ((fix go (es : list (string * val)) : list (string * val) :=
-                 match es with [] => [] | (k, e) :: es' => (k, taint T t' e) :: go es' end) es)
+    | TPtr t' | TSlice t' | TMap t' => VRef r (map_es (fun e => taint T t' e) es)
     | _ => v
     end
   | _ => v
@@ -145,21 +156,15 @@ Fixpoint prune (T : table) (pruned : list (list string)) (path : list string) (t
       match find_struct T n with
       | None => v
       | Some sd =>
-        VStruct ((fix go (fds : list field) (vs : list val) {struct vs} : list val :=
-                    match fds, vs with
-                    | fd :: fds', x :: vs' =>
-                      (if path_mem (path ++ [f_go fd]) pruned then VNil
-                       else prune T pruned (path ++ [f_go fd]) (f_ty fd) x) :: go fds' vs'
-                    | _, _ => vs
-                    end) (s_fields sd) vs)
+        VStruct (zipf (fun fd x =>
+                         if path_mem (path ++ [f_go fd]) pruned then VNil
+                         else prune T pruned (path ++ [f_go fd]) (f_ty fd) x) (s_fields sd) vs)
       end
     | _ => v
     end
   | VRef r es =>
     match t with
-    | TPtr t' | TSlice t' | TMap t' =>
-      VRef r ((fix go (es : list (string * val)) : list (string * val) :=
-                 match es with [] => [] | (k, e) :: es' => (k, prune T pruned path t' e) :: go es' end) es)
+    | TPtr t' | TSlice t' | TMap t' => VRef r (map_es (fun e => prune T pruned path t' e) es)
     | _ => v
     end
   | _ => v
@@ -199,6 +204,32 @@ Definition blank_val (x : val) : val * bool :=
 (* result: redacted value, next unused region id, regions written (in order) *)
 Definition rres := (val * N * list N)%type.
 
+Definition zipf_st (f : field -> val -> N -> rres) : list field -> list val -> N -> list val * N * list N :=
+  fix go (fds : list field) (vs : list val) (next : N) {struct vs} : list val * N * list N :=
+    match vs, fds with
+    | x :: vs', fd :: fds' =>
+      let '(x', n1, w1) := f fd x next in
+      let '(r, n2, w2) := go fds' vs' n1 in
+      (x' :: r, n2, (w1 ++ w2)%list)
+    | _, _ => (vs, next, [])
+    end.
+Definition map_es_st (f : val -> N -> rres) : list (string * val) -> N -> list (string * val) * N * list N :=
+  fix go (es : list (string * val)) (next : N) {struct es} : list (string * val) * N * list N :=
+    match es with
+    | [] => ([], next, [])
+    | (k, e) :: es' =>
+      let '(e', n1, w1) := f e next in
+      let '(rs, n2, w2) := go es' n1 in
+      ((k, e') :: rs, n2, (w1 ++ w2)%list)
+    end.
+
+Definition copies (m : cmode) (es : list (string * val)) : bool :=
+  match m with
+  | InPlace => false
+  | CopyLenPos => match es with [] => false | _ => true end
+  | _ => true
+  end.
+
 Fixpoint redact (T : table) (t : ty) (p : rprog) (cur next : N) (v : val) {struct v} : rres :=
   match v with
   | VStruct vs =>
@@ -208,21 +239,14 @@ Fixpoint redact (T : table) (t : ty) (p : rprog) (cur next : N) (v : val) {struc
       | None => (v, next, [])
       | Some sd =>
         let '(vs', next', w) :=
-          (fix go (fds : list field) (vs : list val) (next : N) {struct vs} : list val * N * list N :=
-             match fds, vs with
-             | fd :: fds', x :: vs' =>
-               let '(x', n1, w1) :=
-                 match p with
-                 | RBlankKey =>
-                   if String.eqb (f_go fd) tls_key_go
-                   then let '(y, ch) := blank_val x in (y, next, if ch then [cur] else [])
-                   else redact T (f_ty fd) RNone cur next x
-                 | _ => redact T (f_ty fd) (sub_prog p (f_go fd)) cur next x
-                 end in
-               let '(r, n2, w2) := go fds' vs' n1 in
-               (x' :: r, n2, (w1 ++ w2)%list)
-             | _, _ => (vs, next, [])
-             end) (s_fields sd) vs next in
+          zipf_st (fun fd x next =>
+                     match p with
+                     | RBlankKey =>
+                       if String.eqb (f_go fd) tls_key_go
+                       then let '(y, ch) := blank_val x in (y, next, if ch then [cur] else [])
+                       else redact T (f_ty fd) RNone cur next x
+                     | _ => redact T (f_ty fd) (sub_prog p (f_go fd)) cur next x
+                     end) (s_fields sd) vs next in
         (VStruct vs', next', w)
       end
     | _ => (v, next, [])
@@ -230,22 +254,10 @@ Fixpoint redact (T : table) (t : ty) (p : rprog) (cur next : N) (v : val) {struc
   | VRef r es =>
     match elem_ty t with
     | Some t' =>
-      let copy := match mode_of p with
-                  | InPlace => false
-                  | CopyLenPos => match es with [] => false | _ => true end
-                  | _ => true
-                  end in
+      let copy := copies (mode_of p) es in
       let r' := if copy then next else r in
       let next1 := if copy then N.succ next else next in
-      let '(es', n2, w) :=
-        (fix go (es : list (string * val)) (next : N) : list (string * val) * N * list N :=
-           match es with
-           | [] => ([], next, [])
-           | (k, e) :: es' =>
-             let '(e', n1, w1) := redact T t' (elem_prog p) r' next e in
-             let '(rs, n2, w2) := go es' n1 in
-             ((k, e') :: rs, n2, (w1 ++ w2)%list)
-           end) es next1 in
+      let '(es', n2, w) := map_es_st (fun e next => redact T t' (elem_prog p) r' next e) es next1 in
       (VRef r' es', n2, ((if copy then [cur] else []) ++ w)%list)
     | None => (v, next, [])
     end
@@ -402,8 +414,7 @@ Fixpoint covers (T : table) (fuel : nat) (pruned : list (list string)) (path : l
         if String.eqb n tls_struct then
           (prog_eq_blank p
            && existsb (fun fd => (String.eqb (f_go fd) tls_key_go && key_eq (f_json fd) tls_key_json)%bool) (s_fields sd)
-           && forallb (fun fd => (String.eqb (f_go fd) tls_key_go
-                                  || match f_ty fd with TRaw => true | _ => covers T f pruned (path ++ [f_go fd]) (f_ty fd) RNone end)%bool)
+           && forallb (fun fd => (String.eqb (f_go fd) tls_key_go || covers T f pruned (path ++ [f_go fd]) (f_ty fd) RNone)%bool)
                       (s_fields sd))%bool
         else
           (negb (prog_eq_blank p) &&
@@ -422,11 +433,14 @@ Fixpoint covers (T : table) (fuel : nat) (pruned : list (list string)) (path : l
 
 Definition graph_fuel : nat := 64.
 
-Definition pruned_for (e : endpoint) : list (list string) :=
+(* where an endpoint's value sits in the live configuration *)
+Definition endpoint_path (e : endpoint) : list string :=
   match e with
-  | EFull => pruned_root
-  | EMosn => [["ClusterManager"; "Clusters"]; ["ClusterManager"; "ClusterManagerConfigJson"; "ClustersJson"]; ["Extends"]]
-  | _ => []
+  | EFull | EBad => []
+  | EMosn => ["MosnConfig"]
+  | EAllRouters | ERouter _ => ["Routers"]
+  | EAllClusters | ECluster _ => ["Cluster"]
+  | EAllListeners | EListener _ => ["Listener"]
   end.
 Definition endpoint_ty (e : endpoint) : ty :=
   match e with
@@ -440,26 +454,93 @@ Definition endpoint_ty (e : endpoint) : ty :=
 Definition endpoint_prog (e : endpoint) : rprog := let '(_, p, _) := endpoint_part e VNil in p.
 
 Definition covers_endpoint (e : endpoint) : bool :=
-  covers cfg_structs graph_fuel (pruned_for e) [] (endpoint_ty e) (endpoint_prog e).
+  covers cfg_structs graph_fuel pruned_root (endpoint_path e) (endpoint_ty e) (endpoint_prog e).
 
 Definition all_endpoint_kinds : list endpoint :=
   [EFull; EMosn; EAllRouters; EAllClusters; EAllListeners; ERouter ""; ECluster ""; EListener ""; EBad].
 
 (* the types of the graph agree with what endpoint_part finds by field name *)
 Definition endpoint_types_ok : bool :=
-  forallb (fun e => match e with
-                    | EFull | EBad => true
-                    | EMosn => match field_index (match find_struct cfg_structs cfg_root with Some sd => s_fields sd | None => [] end) "MosnConfig" 0 with
-                               | Some (_, fd) => match f_ty fd with TNamed n => String.eqb n "v2.MOSNConfig" | _ => false end | None => false end
+  forallb (fun e => match endpoint_path e with
+                    | [f] => match find_struct cfg_structs cfg_root with
+                             | Some sd => match field_index (s_fields sd) f 0 with
+                                          | Some (_, fd) => (negb (f_skip fd) && match f_ty fd, endpoint_ty e with
+                                                             | TNamed a, TNamed b => String.eqb a b
+                                                             | TMap (TNamed a), TMap (TNamed b) => String.eqb a b
+                                                             | _, _ => false
+                                                             end)%bool
+                                          | None => false
+                                          end
+                             | None => false
+                             end
                     | _ => true
                     end) all_endpoint_kinds.
+
+(* the PrivateKey field of v2.TLSConfig is the JSON member "private_key" (what the raw-JSON redaction looks for) *)
+Definition tls_key_named_b (T : table) : bool :=
+  match find_struct T tls_struct with
+  | Some sd => forallb (fun fd => (negb (String.eqb (f_go fd) tls_key_go) || key_eq (f_json fd) tls_key_json)%bool) (s_fields sd)
+  | None => false
+  end.
 
 (* no unknown / unattributed TLS-bearing configuration type anywhere in the tree *)
 Definition no_unknown_tls_types : bool :=
   match cfg_unknown_tls, cfg_unattributed_tls with [], [] => true | _, _ => false end.
 
 Definition covers_all : bool :=
-  (forallb covers_endpoint all_endpoint_kinds && no_unknown_tls_types && CfgTypes_translator_ok)%bool.
+  (forallb covers_endpoint all_endpoint_kinds && endpoint_types_ok && tls_key_named_b cfg_structs
+   && no_unknown_tls_types && CfgTypes_translator_ok)%bool.
+
+(* ------------------------------------------------------------------------------------ witness values *)
+Fixpoint zero_val (T : table) (fuel : nat) (t : ty) : val :=
+  match fuel with
+  | O => VNil
+  | S f =>
+    match t with
+    | TBool => VBool false
+    | TInt => VInt 0
+    | TFloat => VFloat "0"
+    | TStr => VStr ""
+    | TNamed n => match find_struct T n with
+                  | Some sd => VStruct (map (fun fd => zero_val T f (f_ty fd)) (s_fields sd))
+                  | None => VNil
+                  end
+    | TOpaque n => VOpaque n "0"
+    | _ => VNil
+    end
+  end.
+Definition zero_of (n : string) : val := zero_val cfg_structs 16 (TNamed n).
+Definition set_in (n : string) (v : val) (p : list string) (x : val) : val := vset cfg_structs (TNamed n) v p x.
+
+(* a configuration with one key at every kind of position; regions 1..9 are its storage *)
+Definition w_tls (k : string) : val := set_in tls_struct (zero_of tls_struct) [tls_key_go] (VStr k).
+Definition w_chain : val :=
+  set_in "v2.FilterChain"
+    (set_in "v2.FilterChain" (zero_of "v2.FilterChain") ["TLSContexts"] (VRef 1 [("", w_tls "KEY-CONTEXTS")]))
+    ["FilterChainConfig"; "TLSConfig"] (VRef 2 [("", w_tls "KEY-SINGLE")]).
+Definition w_listener : val :=
+  set_in "v2.Listener" (zero_of "v2.Listener") ["ListenerConfig"; "FilterChains"] (VRef 3 [("", w_chain)]).
+Definition w_cluster : val := set_in "v2.Cluster" (zero_of "v2.Cluster") ["TLS"] (w_tls "KEY-CLUSTER").
+Definition w_server : val := set_in "v2.ServerConfig" (zero_of "v2.ServerConfig") ["Listeners"] (VRef 4 [("", w_listener)]).
+Definition w_ext : val :=
+  VStruct [VStr "tunnel_agent";
+           VJson (JObj [("enable", JBool false); ("tls_context", JObj [("status", JBool true); ("Private_Key", JStr "KEY-EXT")])])].
+Definition w_mosn : val :=
+  set_in "v2.MOSNConfig"
+    (set_in "v2.MOSNConfig" (zero_of "v2.MOSNConfig") ["Servers"] (VRef 5 [("", w_server)]))
+    ["ClusterManager"; "ClusterManagerConfigJson"; "TLSContext"] (w_tls "KEY-CM").
+Definition w_conf : val :=
+  set_in cfg_root (set_in cfg_root (set_in cfg_root (set_in cfg_root (zero_of cfg_root)
+    ["MosnConfig"] w_mosn)
+    ["Listener"] (VRef 6 [("l1", w_listener)]))
+    ["Cluster"] (VRef 7 [("c1", w_cluster)]))
+    ["ExtendConfigs"] (VRef 8 [("", w_ext)]).
+Definition w_next0 : N := 10%N.
+
+(* the dump with an explicitly chosen redactor shape (m: how Servers/Listeners are treated; ext: extension configs handled) *)
+Definition dump_full_with (m : cmode) (ext : bool) (fuel : nat) (next0 : N) (c : val) : json * list N :=
+  let r := redact cfg_structs root_ty (p_root_with m ext) next0 (N.succ next0) c in
+  (encode cfg_structs fuel root_ty (rval r), rlog r).
 
 (* ------------------------------------------------------------------- correspondence (evaluated on shards) *)
 (* one case: live config value (as printed by the harness from the real conf), endpoint, first free region,
